@@ -28,6 +28,8 @@ VERIF_KINDS = [
     ("decreases not satisfied", "decreases"),
     ("could not prove termination", "decreases"),
     ("unable to prove assertion safety condition", "assertion"),
+    ("unable to prove post-condition of closure", "postcondition"),
+    ("unable to prove pre-condition of closure", "precondition"),
     ("constructed value may fail to meet its declared type invariant", "type-invariant"),
 ]
 UNDECIDED_PAT = ["Resource limit (rlimit) exceeded", "rlimit", "timed out", "not supported", "unsupported"]
